@@ -73,5 +73,34 @@ pub fn generate(s: &mut Session, tier: &str, rng: &mut Rng) {
             s.run(&format!("e2e.stop {}", w));
             s.mark_nontrivial();
         }
+        // the same configuration behind a link that delivers the stream in small pieces of changing size: every read of
+        // client and server ends somewhere inside a frame (a first flight split by the path MTU, slow links)
+        let family_pick = matches!((base.protocol, base.cipher, base.users.as_str()), ("shadowsocks", "aes-256-gcm", _) | ("shadowsocks", "2022-blake3-aes-128-gcm", _) | ("vmess", _, _) | ("trojan", _, _));
+        if thorough || family_pick {
+            for t in if thorough && tls_available() { vec!["tcp", "tls"] } else { vec!["tcp"] } {
+                let cfg = base.with(t);
+                s.begin_case(&format!("chopped:{}", cfg.label()));
+                let w = s.fresh("w");
+                let mut op = format!("e2e.start {} protocol={} cipher={} spw={} cpw={} users={} mode=tcp link=chop threads=4", w, cfg.protocol, cfg.cipher, cfg.spw, cfg.cpw, cfg.users);
+                if t == "tls" {
+                    op.push_str(" tls=ssl");
+                }
+                if s.run(&op) != "ok" {
+                    continue;
+                }
+                for kind in KINDS {
+                    let target_first = rng.below(2) == 0;
+                    let op = format!("e2e.tcp {} kind={} host=127.0.0.1 up={} down={} seed={} close={}", w, kind, sizes(rng, 40_000), sizes(rng, 40_000), rng.below(1 << 40), if target_first { "target" } else { "app" });
+                    let r = s.run(&op);
+                    check(s, &format!("chopped:{}", cfg.label()), &op, &r, target_first);
+                }
+                // a first write larger than one body chunk / one read
+                let op = format!("e2e.tcp {} kind=socks5 host=127.0.0.1 up=5000,3000 down=2000 seed={} close=target", w, rng.below(1 << 40));
+                let r = s.run(&op);
+                check(s, &format!("chopped:{}", cfg.label()), &op, &r, true);
+                s.run(&format!("e2e.stop {}", w));
+                s.mark_nontrivial();
+            }
+        }
     }
 }
